@@ -121,24 +121,35 @@ Fixpoint quiet (t : list event) : bool :=
   | _ :: r => quiet r
   end.
 
-Fixpoint span_ok (phase d : nat) (t : list event) : bool :=
+(* [w]: the outermost lock of the section is the write side.  In a section opened with the READ side a
+   write-side acquisition is an UPGRADE, and the lock implements an upgrade by letting go of the read side
+   first -- another writer may run in between -- so such a trace is not one section. *)
+Fixpoint span_ok (phase d : nat) (w : bool) (t : list event) : bool :=
   match t with
   | [] => true
-  | EAcq _ :: r => match phase with
-                   | 0 => span_ok 1 1 r
-                   | 1 => span_ok 1 (S d) r
+  | EAcq l :: r => match phase with
+                   | 0 => span_ok 1 1 (is_w l) r
+                   | 1 => if is_w l && negb w then false else span_ok 1 (S d) w r
                    | _ => false
                    end
   | ERel _ :: r => match phase with
                    | 1 => match d with
                           | 0 => false
-                          | 1 => span_ok 2 0 r
-                          | S d' => span_ok 1 d' r
+                          | 1 => span_ok 2 0 w r
+                          | S d' => span_ok 1 d' w r
                           end
                    | _ => false
                    end
-  | EPoke _ :: r => match phase with 1 => span_ok 1 d r | _ => false end
-  | _ :: r => span_ok phase d r
+  | EPoke _ :: r => match phase with 1 => span_ok 1 d w r | _ => false end
+  | _ :: r => span_ok phase d w r
+  end.
+
+(* no write-side acquisition at all *)
+Fixpoint nowrite (t : list event) : bool :=
+  match t with
+  | [] => true
+  | EAcq l :: r => negb (is_w l) && nowrite r
+  | _ :: r => nowrite r
   end.
 
 (* The top level of a function body taken in program order, every statement at most once
@@ -172,13 +183,30 @@ Fixpoint quiet_prog_from (i : nat) (prog : list (list stmt)) : bool :=
   | b :: r => quiet_fn i b && quiet_prog_from (S i) r
   end.
 
-(* quiet statements, at most one with-block, quiet statements *)
+Variable nw : nat -> bool.               (* summary: the function never takes the write side *)
+Fixpoint nowrite_stmt (s : stmt) : bool :=
+  match s with
+  | SPoke _ => true
+  | SCall tg => forallb nw tg
+  | SYield => true
+  | SWith l body => negb (is_w l) && forallb nowrite_stmt body
+  | SGuard g body => if env g then forallb nowrite_stmt body else true
+  end.
+Definition nowrite_fn (fi : nat) (body : list stmt) : bool := negb (nw fi) || forallb nowrite_stmt body.
+Fixpoint nowrite_prog_from (i : nat) (prog : list (list stmt)) : bool :=
+  match prog with
+  | [] => true
+  | b :: r => nowrite_fn i b && nowrite_prog_from (S i) r
+  end.
+
+(* quiet statements, at most one with-block, quiet statements; a block opened with the read side must not
+   reach a write-side acquisition *)
 Fixpoint one_span_items (seen : bool) (items : list stmt) : bool :=
   match items with
   | [] => true
   | s :: r => if quiet_stmt s then one_span_items seen r
               else match s with
-                   | SWith _ _ => negb seen && one_span_items true r
+                   | SWith l body => negb seen && (is_w l || forallb nowrite_stmt body) && one_span_items true r
                    | _ => false
                    end
   end.
